@@ -102,32 +102,16 @@ async fn file_paths(config: &Config, write: bool) -> PersistenceResult<(PathBuf,
 }
 
 pub(crate) async fn toggle_alternating_files(path: &Path, write: bool) -> PersistenceResult<bool> {
-    if write {
-        if remove_file(path).await.is_ok() {
-            debug!(
-                "toggle file {} removed, writing to backup",
-                path.to_string_lossy()
-            );
-            Ok(false)
-        } else {
-            File::create(path).await?;
-            debug!(
-                "toggle file {} created, writing to main",
-                path.to_string_lossy()
-            );
-            Ok(true)
-        }
-    } else if File::open(path).await.is_ok() {
-        debug!(
-            "toggle file {} exists, reading from main",
-            path.to_string_lossy()
-        );
-        Ok(true)
+    // schema 2 files are only ever read: the selector is never moved, `write` merely asks for
+    // the set of files the selector does not point to
+    let main_selected = File::open(path).await.is_ok();
+    if main_selected {
+        debug!("toggle file {} exists, main is selected", path.to_string_lossy());
     } else {
         debug!(
-            "toggle file {} does not exists, reading from backup",
+            "toggle file {} does not exist, backup is selected",
             path.to_string_lossy()
         );
-        Ok(false)
     }
+    Ok(main_selected != write)
 }
